@@ -80,7 +80,7 @@ def module_event(roots, envspec, policy, fw, layout, kw=None, I=None, want=(), i
                    "cu": bool(kw.get("convert_unicode", True))},
           "graph": {"models": [], "next": 0}, "labels": {}, "parse_exc": "", "exec_exc": "", "classes": [],
           "mod": {"imports": [], "classes": [], "order": []}, "pyd": [], "constructs": [], "keyfacts": {}, "parsed": {},
-          "indomain": bool(indomain), "text": res.text}
+          "indomain": bool(indomain), "namesdomain": True, "text": res.text}
     keys = set()
     for _, samples in roots:
         _all_keys(samples, keys)
@@ -93,6 +93,7 @@ def module_event(roots, envspec, policy, fw, layout, kw=None, I=None, want=(), i
         folds = [key_facts(n or "")["fold"] for n in res["names_before"].values()]
         if len(set(folds)) != len(folds):
             ev["indomain"] = False
+            ev["namesdomain"] = False
     if not res.exc:
         g, labels = LM.graph_with_names(res, I)
         ev["graph"], ev["labels"] = g, labels
